@@ -36,7 +36,7 @@ ANCHORS = ['recursiveloader:ManifestRecursiveLoader.update_entries_for_directory
            'cli:CreateCommand.__call__']
 REQUIRED = ['recursiveloader:ManifestRecursiveLoader.save_manifests',
             'updates_completed', 'postconditions_checked', 'fresh_verifications',
-            'cli_updates']
+            'cli_updates', 'cli_history_steps', 'cli_histories_verified']
 ASSUMPTIONS = ['nothing is claimed when update or save raised (C10 / C18 watch that)',
                'default profile only (profiles: C19)']
 
@@ -51,8 +51,17 @@ N = {'quick': 1500, 'thorough': 60000}
 PER_UNIT = 15
 
 
+BIG = {'max_dirs': 40, 'max_files': 150, 'depth': 12, 'specials': False}
+
+
 def units(tier, seed):
-    return [{'k': 'gen', 'i': i, 'n': PER_UNIT} for i in range(N[tier] // PER_UNIT)]
+    u = [{'k': 'gen', 'i': i, 'n': PER_UNIT} for i in range(N[tier] // PER_UNIT)]
+    # trees an order of magnitude larger and three times deeper
+    for i in range(8 if tier == 'quick' else 300):
+        u.append({'k': 'big', 'i': 100000 + i, 'n': 2})
+    for i in range(10 if tier == 'quick' else 300):
+        u.append({'k': 'cli-hist', 'i': i, 'n': 4})
+    return u
 
 
 def setup_worker(ctx):
@@ -264,10 +273,13 @@ def gen_options(rng, root, first, absent):
             'scope': scope, 'wseed': rng.randrange(1 << 30)}
 
 
-def gen_history(rng, root):
+def gen_history(rng, root, big=False):
     nmut = rng.choice([0, 1, 2, 2, 3, 4])
-    case, layout, info = scenario.build(
-        rng, root, PRIOR, nmut, {'p_split': float(os.environ.get('VF_PSPLIT', '0.15')), 'specials': rng.random() < 0.1})
+    opts = {'p_split': 0.15, 'specials': rng.random() < 0.1}
+    if big:
+        nmut = rng.choice([0, 2, 5, 9])
+        opts = dict(BIG, p_split=0.15)
+    case, layout, info = scenario.build(rng, root, PRIOR, nmut, opts)
     absent = rng.random() < 0.12
     if absent:
         for mp in list(update_post.manifest_files_on_disk(root)):
@@ -370,13 +382,133 @@ def run_history(ctx, root, case):
             break
 
 
+def _cli(argv):
+    from gemato import cli as gcli
+    try:
+        return gcli.main(['gemato'] + argv)
+    except SystemExit as exc:
+        return 'exit:%r' % (exc.code,)
+    except Exception as exc:
+        return exc
+
+
+def exec_cli_history(ctx, case):
+    """Several edit + update rounds through the CLI, mixing sub-directory updates and
+    `--incremental` whole-tree updates on a tree that carries a TIMESTAMP; mtimes are
+    set explicitly (relative to that TIMESTAMP), so nothing depends on the clock."""
+    import time
+    hashes = ' '.join(case['hashes'])
+    hs = sorted(case['hashes'])
+    with common.Scratch('vf-c03i-') as d:
+        root = os.path.join(d, 't')
+        gtree.materialize(case['tree'], root)
+        t0 = int(time.time()) - 100000
+        for dp, dn, fn in os.walk(root):
+            for x in fn:
+                os.utime(os.path.join(dp, x), (t0 - 500, t0 - 500))
+        if _cli(['create', '--hashes', hashes, '-t', root]) != 0:
+            ctx.count('harness_error')
+            return
+        mp = os.path.join(root, 'Manifest')
+        with open(mp) as f:
+            lines = f.read().split('\n')
+        stamp = time.strftime('%Y-%m-%dT%H:%M:%SZ', time.gmtime(t0))
+        with open(mp, 'w') as f:
+            f.write('\n'.join('TIMESTAMP ' + stamp if ln.startswith('TIMESTAMP ')
+                              else ln for ln in lines))
+        ctx.case(sig=('c03-cli-hist', len(case['steps'])), case=case, klass='cli-hist')
+        clock = t0
+        for si, st in enumerate(case['steps']):
+            files, dirs = [], []
+            for dp, dn, fn in os.walk(root):
+                for x in dn:
+                    dirs.append(os.path.relpath(os.path.join(dp, x), root))
+                for x in fn:
+                    if not x.startswith('Manifest'):
+                        files.append(os.path.relpath(os.path.join(dp, x), root))
+            files.sort()
+            dirs.sort()
+            # every edit ends up newer than the TIMESTAMP the Manifest carries now
+            # (a whole-tree update may have moved it to the present)
+            import calendar
+            for e in mtext.parse_file(os.path.join(root, 'Manifest')):
+                if e['tag'] == 'TIMESTAMP':
+                    t = e['ts']
+                    clock = max(clock, calendar.timegm((
+                        int(t[0:4]), int(t[5:7]), int(t[8:10]), int(t[11:13]),
+                        int(t[14:16]), int(t[17:19]))))
+            for ed in st['edits']:
+                if not files:
+                    break
+                f = files[ed['pick'] % len(files)]
+                with open(os.path.join(root, f), 'rb') as fh:
+                    data = fh.read()
+                if ed['same'] and data:
+                    data = bytes((b + 1) % 256 for b in data)
+                else:
+                    data = data + b'+'
+                with open(os.path.join(root, f), 'wb') as fh:
+                    fh.write(data)
+                clock += 100
+                os.utime(os.path.join(root, f), (clock, clock))
+            if st['scope'] is not None and dirs:
+                target = os.path.join(root, dirs[st['scope'] % len(dirs)])
+                scope = os.path.relpath(target, root)
+            else:
+                target, scope = root, ''
+            argv = ['update', '--hashes', hashes]
+            if st['incremental'] and scope == '':
+                argv.append('--incremental')
+            rc = _cli(argv + [target])
+            ctx.count('cli_history_steps')
+            if rc != 0:
+                ctx.count('cli_history_step_failed')
+                return
+            findings = update_post.check(root, 'Manifest', scope, hs)
+            if findings:
+                ctx.violation('post-cli-history:' + findings[0][0], 'step %d (%s%s): %r'
+                              % (si, 'update ' + (scope or '<top>'),
+                                 ' --incremental' if '--incremental' in argv else '',
+                                 findings[:3]), case, {'step': si})
+                return
+        fk, fv = fresh_verify(root, '')
+        ctx.count('cli_histories_verified')
+        if fk == 'exc' or fv is not True:
+            ctx.violation('post-cli-history:fresh-verify-fails', 'after the history a '
+                          'fresh verification fails: %r' % (fv,), case)
+
+
+def run_cli_history(u, ctx):
+    for j in range(u['n']):
+        rng = common.rng_for(ctx.seed, ID, 'clih', u['i'], j)
+        skel = gtree.gen_skeleton(rng, max_dirs=4, max_files=8, hostile=0,
+                                  hidden=False, symlinks=False, specials=False)
+        steps = []
+        for _ in range(rng.randint(2, 4)):
+            steps.append({'edits': [{'pick': rng.randrange(1 << 20),
+                                     'same': rng.random() < 0.7}
+                                    for _ in range(rng.randint(1, 3))],
+                          'scope': rng.randrange(1 << 20) if rng.random() < 0.5 else None,
+                          'incremental': rng.random() < 0.7})
+        # the history ends with a whole-tree incremental update (edits outside the
+        # scope of a sub-directory update are legitimately stale until then)
+        steps.append({'edits': [], 'scope': None, 'incremental': True})
+        case = {'kind': 'cli-hist', 'tree': skel, 'steps': steps,
+                'hashes': rng.choice([['SHA256'], ['MD5', 'SHA1'], ['BLAKE2B', 'SHA512']])}
+        exec_cli_history(ctx, case)
+
+
 def run_unit(u, ctx):
+    if u['k'] == 'cli-hist':
+        return run_cli_history(u, ctx)
     for j in range(u['n']):
         rng = common.rng_for(ctx.seed, ID, u['i'], j)
         with common.Scratch('vf-c03-') as d:
             root = os.path.join(d, 't')
             try:
-                case = gen_history(rng, root)
+                case = gen_history(rng, root, big=(u['k'] == 'big'))
+                if u['k'] == 'big':
+                    ctx.count('big_trees')
             except RuntimeError as exc:
                 ctx.discarded('generator: %s' % exc)
                 continue
@@ -387,6 +519,8 @@ def run_unit(u, ctx):
 
 
 def replay(case, ctx):
+    if case.get('kind') == 'cli-hist':
+        return exec_cli_history(ctx, case)
     with common.Scratch('vf-c03-') as d:
         root = os.path.join(d, 't')
         scenario.rebuild(root, case)
